@@ -544,12 +544,29 @@ def _send_case(rng, cls, kind, vouts, sats, frac=1.0, fee=1000, flag=1, version=
     keys = _keys(rng, nkeys if kind in ("multisig", "p2sh", "p2wsh", "p2sh-p2wsh") else 1)
     if key_pattern is not None:                 # e.g. [0, 1, 0]: the script lists key 0 twice
         keys = [keys[i] for i in key_pattern]
+    want = kw.pop("commit_where", None)         # predicate on the sender's commitment (key hash / script hash): search keys
+    if want is not None:
+        for _ in range(6000):
+            if want(_commitment(kind, keys, m, compressed)):
+                break
+            keys[-1] = rng.randrange(1, SECP_N)
+        else:
+            raise RuntimeError("c16: no key found for the requested commitment pattern")
     s_addr, spk, wifs = sender(kind, keys, m=m, net=net, compressed=compressed, signing=signing)
     rec = s_addr if rk == "sender" else recipient(rk, rng, net)
     ch = s_addr if change == "sender" else (recipient(change, rng, net) if change else None)
     nsig = len(vouts) * len(wifs)               # every selected input is signed by every key
     return scenario(cls, s_addr, rec, ch, wifs if signed else [], flag if signed else None, frac, fee, version, locktime,
                     _utxos(rng, vouts, sats, spk, same_txid), _draws(rng, nsig + 1) if signed else [], **kw)
+
+
+def _commitment(kind, keys, m, compressed):
+    """the hash the sender's locking script commits to: HASH160(pubkey), or HASH160 / SHA256 of the multisig script"""
+    pks = [R.pub_of(k, compressed if kind in ("p2pk", "p2pkh", "multisig", "p2sh") else True) for k in keys]
+    if kind in ("p2pk", "p2pkh", "p2wpkh", "p2sh-p2wpkh"):
+        return R.h160(pks[0])
+    ms = R.spk_multisig(m, pks)
+    return R.sha256(ms) if kind in ("p2wsh", "p2sh-p2wsh") else R.h160(ms)
 
 
 def _rand_sats(rng):
@@ -706,6 +723,16 @@ def gen_cases(rng, tier):
                          m=m_, nkeys=2, key_pattern=pat, signing=sg, compressed=rng.random() < 0.7))
     A(_send_case(rng, "multisig-repeated-key", "p2wsh", [0, 1], [COIN, COIN], frac=1.0, flag=1, m=2, nkeys=2, key_pattern=[0, 0],
                  signing=[0, 1]))
+    # COMMITMENTS THAT LOOK LIKE SCRIPT: the key hash / script hash (= the tail of the redeem script 00 14 <h> / 00 20 <h> of the
+    # nested kinds, and of the scriptCode) ends or starts with an opcode byte that assembly helpers test for - ae CHECKMULTISIG,
+    # ac CHECKSIG, 87 EQUAL, 88 EQUALVERIFY, 51..53 OP_1..3, 00 - a helper that recognises a script "by its last byte" misfires
+    LOOK = [("ends-ae", lambda h: h[-1] == 0xae), ("ends-ac", lambda h: h[-1] == 0xac), ("ends-87", lambda h: h[-1] == 0x87),
+            ("ends-88", lambda h: h[-1] == 0x88), ("starts-51-53", lambda h: h[0] in (0x51, 0x52, 0x53)),
+            ("starts-00", lambda h: h[0] == 0), ("ends-00", lambda h: h[-1] == 0)]
+    for kind in ("p2sh-p2wpkh", "p2sh-p2wsh", "p2wpkh", "p2wsh", "p2pkh", "p2sh"):
+        for name, pred in (LOOK if T else [LOOK[0]] + rng.sample(LOOK[1:], 1 if kind.startswith("p2sh-") else 0)):
+            A(_send_case(rng, "commitment-looks-like-script-" + name, kind, [rng.randrange(3)], [COIN], frac=rng.choice([1.0, 0.5]),
+                         flag=rng.choice(FLAGS), m=1, nkeys=2, commit_where=pred))
     # keys supplied in an order different from the script's: not a scenario of the property (CHECKMULTISIG is ordered and send_tx
     # signs in the order given) - implementation and model must still agree
     for kind in (MS_KINDS if T else rng.sample(MS_KINDS, 2)):
